@@ -385,6 +385,25 @@ def p_rules(P, E):
         r.instance(("P3", down.nid), True, "unsubscribe calls %s" % [c.bb for c in un])
         if not un:
             r.violate(("P3", root, "count-down never unsubscribes"), "when the last subscriber leaves the source subscription is not unsubscribed", body=down)
+        # P6: the disconnect re-arms the connect: where the stored subscription is unsubscribed it is also taken out of
+        # the cell, otherwise connect's `already connected?` test stays true for ever and a subscriber that arrives after the
+        # count dropped to zero is attached to a subject nobody feeds
+        emptied = []
+        for c in down.calls:
+            if c.path in ("std::option::Option::take", "std::mem::take", "std::mem::replace") and c.args and \
+                    _hits(P, down, down.operand_prov(c.args[0]), "subscription"):
+                emptied.append(c.bb)
+        for i in sorted(down.reach):
+            for s_ in down.blocks[i]["stmts"]:
+                if s_["k"] == "assign" and len(s_["lhs"]) > 1 and "*" in s_["lhs"] and _hits(P, down, down.place_prov(s_["lhs"]), "subscription"):
+                    emptied.append(i)
+        r.instance(("P6", down.nid), True, "unsubscribe %s, cell emptied at %s" % ([c.bb for c in un], emptied))
+        for c in un:
+            if not emptied or (Effects.path_avoiding(down, [c.bb], emptied) is not None and
+                               Effects.path_avoiding(down, down.returns, emptied, start=c.bb) is not None):
+                r.violate(("P6", root, "disconnect leaves the stale subscription stored"),
+                          "when the last subscriber leaves, the source subscription is unsubscribed but stays in the cell: connect() finds "
+                          "`is_some()` for ever, so the next first subscriber never subscribes the source again", body=down, line=c.line)
         # P4: subscription written only in count-up
         from rules_c17 import _closures_in_view
         for b in [rb] + _closures_in_view(P, rb):
